@@ -270,6 +270,9 @@ def instances(tier):
     from .common import lemma_instance
     out.append(lemma_instance('C02', 'em', 'lemma:em-monotonicity-from-the-expected-complete-data-log-likelihood'))
     out.append(lemma_instance('C02', 'gauss_mstep', 'lemma:gaussian-m-step-maximises-the-expected-complete-data-log-likelihood'))
+    out.append(lemma_instance('C02', 'watson', 'lemma:watson-m-step-maximises-given-a-convex-log-normaliser',
+                              ['tangent_line_le', 'tangent_maximiser', 'watson_mstep_maximises', 'clipped_upper_maximiser', 'clipped_lower_maximiser',
+                               'clipped_lower_maximiser_Ici', 'log_integral_exp_convex']))
     out.append(lemma_instance('C02', 'cacgmm', 'lemma:cacg-mm-step-does-not-decrease-the-weighted-log-likelihood',
                               ['cacg_scale_invariant', 'complex_logdet_le_trace', 'complex_logdet_mul_le_trace', 'cacg_mm_step']))
     return out
